@@ -731,6 +731,25 @@ fn compare_mirror(
             ),
         ));
     }
+    // The scores are also what the public by-position accessor `scores[i]` returns: it must read the same cells as
+    // the textbook formula on both strands (seeded change C10-u: a stride derived from max_index instead of the rows
+    // of the matrix differs when L mod 32 is in 1..M). Under its own catch: a wrong stride may leave the matrix.
+    let by_index = catch(|| {
+        for i in 0..valid {
+            for (name, sc) in [("m.score(s)", a), ("rc(m).score(rc(s))", b)] {
+                let (u, v) = (sc[i], at(sc, i));
+                if u.to_bits() != v.to_bits() {
+                    return Some(format!("{}[{}] = {:?} through Index<usize> but cell (row {} mod R, column {} div R) holds {:?} (L={}, M={}, R={})", name, i, u, i, i, v, l, m, sc.matrix().rows()));
+                }
+            }
+        }
+        None
+    });
+    match by_index {
+        Ok(None) => {}
+        Ok(Some(msg)) => return Some(("Index<usize> reads another cell".into(), msg)),
+        Err(pn) => return Some((format!("Index<usize> panic {}", panic_class(&pn)), format!("reading a valid position (L={}, M={}, {} positions) through Index<usize> panicked: {}", l, m, valid, pn))),
+    }
     for i in 0..valid {
         let x = at(a, i);
         let y = at(b, valid - 1 - i);
@@ -1194,16 +1213,20 @@ fn nonfinite_row_layout(pl: Pl, seq: &[u8], prepared: &[Prepared], wrap: usize, 
             // the scalar entry point (same arm for striping; score_position itself is scalar)
             let pa: Vec<f32> = (0..valid).map(|i| p.m.score_position(&st.s, i)).collect();
             let pb: Vec<f32> = (0..valid).map(|i| p.rc.score_position(&st.r, i)).collect();
-            (a.max_index(), b.max_index(), va, vb, pa, pb)
+            // the same positions through the public by-position accessor of the striped scores (seeded change C10-u:
+            // a stride taken from max_index instead of the rows differs when L mod 32 is in 1..M, e.g. L=33, M=2)
+            let ia: Vec<f32> = (0..valid.min(a.max_index())).map(|i| a[i]).collect();
+            let ib: Vec<f32> = (0..valid.min(b.max_index())).map(|i| b[i]).collect();
+            (a.max_index(), b.max_index(), va, vb, pa, pb, ia, ib)
         });
         let fail = match res {
             Err(pn) => Some((format!("panic {}", panic_class(&pn)), format!("scoring panicked: {}", pn))),
-            Ok((na, nb, va, vb, pa, pb)) => {
+            Ok((na, nb, va, vb, pa, pb, ia, ib)) => {
                 let mut f = None;
                 if na != valid || nb != valid {
                     f = Some(("score count".to_string(), format!("L={} M={}: {} / {} positions, expected {}", l, m, na, nb, valid)));
                 } else {
-                    for (what, x, y) in [("pipeline score", &va, &vb), ("score_position", &pa, &pb)] {
+                    for (what, x, y) in [("pipeline score", &va, &vb), ("score_position", &pa, &pb), ("scores[i] (Index<usize>)", &ia, &ib)] {
                         for i in 0..valid {
                             let (u, v) = (x[i], y[valid - 1 - i]);
                             let want = window_class(&p.cells, seq, i);
@@ -1273,7 +1296,7 @@ fn run_mirror_nonfinite(ctx: &mut Ctx, rep: &mut Report, index: &mut u64) {
     rep.space(
         "mirror_nonfinite",
         "product: ALL DNA sequences over {A,C,T,G,N} of length 0..=5 (3906; thorough 0..=6, 19531) plus six sequences of 33, 40, 70, 100, 1024 and 2100 symbols (the last two go through the block transposition of the AVX2 striping) x every scoring matrix of width 1..=3 over a 4-row menu of small-integer cells mixed with NaN, +inf and -inf cells \
-         (\"any content\"; built with ScoringMatrix::new) x {generic pipeline, dispatcher arms generic / sse2 / avx2} x {pipeline score_into, scalar ScoringMatrix::score_position} x striped-sequence layouts {configured once; configured for a wider motif first; hand-built with two spare sequence rows}. \
+         (\"any content\"; built with ScoringMatrix::new) x {generic pipeline, dispatcher arms generic / sse2 / avx2} x {pipeline score_into read by the textbook formula, the same read through Index<usize> of the striped scores, scalar ScoringMatrix::score_position} x striped-sequence layouts {configured once; configured for a wider motif first; hand-built with two spare sequence rows}. \
          Oracle: the IEEE sum of a window's cells has the same class in every summation order (NaN if a NaN cell or both infinities occur, else +inf / -inf / the exact integer sum): \
          position i of m on s and position L-M-i of rc(m) on rc(s) both equal that value (NaN matches NaN)",
     );
